@@ -93,3 +93,151 @@ def w1(facts, tier):
                      f"writer {wf['id']} can emit [{rx.show_word(word)}] which reader {rf['id']} does not consume "
                      f"(env {envd}); writer: {rx.show(lw)} ; reader: {rx.show(lr)}",
                      writer=wf["id"], reader=rf["id"], env=envd, word=rx.show_word(word), lw=rx.show(lw), lr=rx.show(lr))
+
+
+# ---------------------------------------------------------------------------
+# W3: the writer's language equals the frozen specification of the documented format
+
+import json
+import os
+
+SPEC_PATH = os.path.join(os.path.dirname(os.path.dirname(os.path.dirname(os.path.abspath(__file__)))), "spec", "wire_spec.json")
+
+
+def writer_langs(facts, W, wf, wts, minv=0):
+    lits, guards = W.probe([wf], [wts])
+    versions = W.version_classes(lits)
+    if minv:
+        versions = [v for v in versions if v >= minv] or [minv]
+    out = []
+    for v in versions:
+        for g in W.guard_assignments(guards):
+            lw, _, _, _ = W.lang(wf, v, g, wts)
+            out.append((v, g, lw))
+    return out
+
+
+def gkey(g):
+    return ";".join(f"{k[0]}<{k[1]}>={int(val)}" for k, val in sorted(g.items(), key=lambda kv: repr(kv[0])))
+
+
+def freeze_spec(facts):
+    """(tool) writes spec/wire_spec.json from the current tree; reviewed by hand against DESIGN.md Appendix A"""
+    sers, _ = impl_pairs(facts)
+    W = wire.WireAnalysis(facts)
+    spec = {}
+    items = []
+    for (ty, fid), (wf, wts) in sorted(sers.items()):
+        key = ty + ("~" + fid.split("~")[1] if "~" in fid else "")
+        items.append((key, wf, wts, 1 if ty in SCHEMA_TYPES else 0, True))
+    for name in CONTAINER_WRITERS:
+        f = facts.fns.get(name)
+        if f:
+            items.append(("container:" + name.split("::")[-1], f, {}, 0, False))
+    for key, wf, wts, minv, norm in items:
+        ents = []
+        for v, g, lw in writer_langs(facts, W, wf, wts, minv):
+            if norm:
+                lw = W.normalise(lw, "w", v, g)
+            ents.append({"v": v, "g": gkey(g), "lang": rx.show(lw), "rx": rx.to_json(lw)})
+        spec[key] = ents
+    return spec
+
+
+CONTAINER_WRITERS = ["savefile::Serializer<'a, W>::save_impl", "savefile::Serializer<'a, W>::bare_serialize"]
+
+
+def spec_lookup(ents, v, gk):
+    """the specified language for version v: the entry with the largest specified version <= v (version classes
+    are intervals and the specification holds a representative of each)"""
+    cands = [e for e in ents if e["g"] == gk and e["v"] <= v]
+    if not cands:
+        return None
+    return max(cands, key=lambda e: e["v"])
+
+
+@rule("W3", ["C02"], floor=90, doc="the wire language of every library writer (and of the container header) equals the "
+      "frozen specification of the documented format (spec/wire_spec.json), modulo expansion of nested values")
+def w3(facts, tier):
+    spec = json.load(open(SPEC_PATH))
+    sers, _ = impl_pairs(facts)
+    W = wire.WireAnalysis(facts)
+    seen = set()
+    items = []
+    for (ty, fid), (wf, wts) in sorted(sers.items()):
+        key = ty + ("~" + fid.split("~")[1] if "~" in fid else "")
+        items.append((key, wf, wts, 1 if ty in SCHEMA_TYPES else 0))
+    for name in CONTAINER_WRITERS:
+        f = facts.fns.get(name)
+        if f:
+            items.append(("container:" + name.split("::")[-1], f, {}, 0))
+    for key, wf, wts, minv in items:
+        seen.add(key)
+        ents = spec.get(key)
+        if ents is None:
+            yield ob(["C02"], "W3", f"unspecified:{key}", "undecided", where(wf),
+                     f"writer {wf['id']} has no entry in the frozen wire specification (new type?)")
+            continue
+        lits, guards = W.probe([wf], [wts])
+        versions = set(W.version_classes(lits)) | {e["v"] for e in ents}
+        versions = sorted(v for v in versions if v >= minv) or [minv]
+        spec_g = {e["g"] for e in ents}
+        bad = None
+        undec = None
+        n_env = 0
+        for v in versions:
+            for g in W.guard_assignments(guards):
+                gk = gkey(g)
+                if gk not in spec_g:
+                    undec = f"the set of fast-path guards of the writer changed ({gk!r} not in the specification {sorted(spec_g)})"
+                    continue
+                se = spec_lookup(ents, v, gk)
+                if se is None:
+                    continue
+                n_env += 1
+                lw, _, _, _ = W.lang(wf, v, g, wts)
+                if key.startswith("container:"):
+                    lwn = lw
+                else:
+                    lwn = W.normalise(lw, "w", v, g)
+                ls = rx.from_json(se["rx"])
+                ok1, w1_, _, _ = W.contains_modulo_expansion(lwn, ls, v, g)
+                if ok1 is not True:
+                    bad = bad or (v, gk, ok1, f"writer emits [{rx.show_word(w1_)}] which the documented format does not contain", lwn, ls)
+                    continue
+                ok2, w2_, _, _ = W.contains_modulo_expansion(ls, lwn, v, g)
+                if ok2 is not True:
+                    bad = bad or (v, gk, ok2, f"documented word [{rx.show_word(w2_)}] can no longer be produced by the writer", lwn, ls)
+        if bad is not None:
+            v, gk, ok, msg, lw, ls = bad
+            yield ob(["C02"], "W3", key, "violation" if ok is False else "undecided", where(wf),
+                     f"{wf['id']}: {msg} (version {v}, guards {gk or '-'}); writer: {rx.show(lw)} ; spec: {rx.show(ls)}",
+                     writer=wf["id"], version=v, guards=gk)
+        elif undec:
+            yield ob(["C02"], "W3", key, "undecided", where(wf), undec)
+        else:
+            yield ob(["C02"], "W3", key, "pass", where(wf), f"writer language = specification in {n_env} environment(s)")
+    for key in sorted(set(spec) - seen):
+        yield ob(["C02"], "W3", f"missing-writer:{key}", "violation", "",
+                 f"the specification describes {key} but no such writer exists in the tree any more")
+
+
+@rule("W4", ["C01", "C02", "C05", "C07"], floor=2, doc="container header: what save_impl writes is what load_impl reads")
+def w4(facts, tier):
+    W = wire.WireAnalysis(facts)
+    pairs = [("savefile::Serializer<'a, W>::save_impl", "savefile::Deserializer<'_, TR>::load_impl"),
+             ("savefile::Serializer<'a, W>::bare_serialize", "savefile::Deserializer<'_, TR>::bare_deserialize")]
+    for wn, rn in pairs:
+        wf, rf = facts.fns.get(wn), facts.fns.get(rn)
+        if not wf or not rf:
+            continue
+        lw, _, _, _ = W.lang(wf, None, {}, {})
+        lr, _, _, _ = W.lang(rf, None, {}, {})
+        lw, lr = rx.strip_payload(lw), rx.strip_payload(lr)
+        ok, word, lw2, lr2 = W.contains_modulo_expansion(lw, lr, None, {})
+        key = wn.split("::")[-1]
+        if ok is True:
+            yield ob(["C01", "C02", "C05", "C07"], "W4", key, "pass", where(wf), f"{rx.show(lw)} ⊆ reader")
+        else:
+            yield ob(["C01", "C02", "C05", "C07"], "W4", key, "violation" if ok is False else "undecided", where(wf),
+                     f"{wn} can emit [{rx.show_word(word)}] which {rn} does not consume; writer {rx.show(lw)} ; reader {rx.show(lr)}")
